@@ -12,6 +12,7 @@
   hypotheses of `CodeSpec` (`h_indep`, `h_comm`, `h_norm`).
 -/
 import QecVerif.Lemmas.Coset
+import QecVerif.Props.C10.Network
 import Mathlib.Algebra.Order.Ring.Rat
 import Mathlib.Tactic.NormNum
 namespace Qec.C10
@@ -174,15 +175,14 @@ example : exD3.Nonneg ∧ exD3.pI + exD3.pX + exD3.pY + exD3.pZ = 1 := by
 example : synd exS3 [true, false, false, false, false, true] ≠ zeros 2 := by decide
 
 /-
+NETWORK SIDE: `factor_graph_identity` (generic) and `planar_tn_exact_value` / `planar_tn_value` / `planar_tn_value_rl` /
+`planar_tn_value_transposed` (the planar MPS decoder's network, all sizes) are PROVED in Props/C10/Network.lean.
+
 STATED, NOT PROVED:
 
-* factor_graph_identity — for a network whose qubit tensor entry, indexed by the bits b_i of the adjacent stabilizer
-  generators, equals d((f ⊕ ⊕_i b_i S_i)_q) and whose stabilizer tensors are deltas (all legs equal), the full index
-  sum of the network equals `cosetProb d S f`.  (In exact arithmetic this is the regrouping
-  Σ_{b ∈ {0,1}^|S|} Π_q d((f ⊕ xorComb b S)_q), i.e. `mem_spanEnum_iff` + `spanEnum_nodup`; the missing part is a
-  Lean model of the decoders' tensor networks, which this round does not contain.)
-* planar_tn_value — exactContract (planarTn R C d f) = cosetProb d (planar stabilizers R C) f for all R, C: needs the
-  planar network model and C11's exact contraction; not modelled here.
+* the networks of PlanarRMPSDecoder, RotatedPlanarMPSDecoder, RotatedPlanarRMPSDecoder and Color666MPSDecoder are not
+  modelled; the statement "their exact contraction equals cosetProb" is only explored (their float results are compared
+  with the exact Lean value on every run).
 * The statement "the real decoders' float / mpf results equal cosetProb" is not a theorem at all: it is explored
   numerically on every run by harness/qv/props/c10.py (relative 1e-11), see LEVEL note there.
 -/
